@@ -25,10 +25,12 @@ func (*c01) CoqImport() string { return engImport }
 const engImport = "From Helm Require Import Engine.Types Engine.Eff Engine.Ops Engine.Cluster Engine.Seq Run.RunEng."
 
 func (*c01) Rule() string {
-	return "histories of 1-6 real operations (install/upgrade/rollback/uninstall, random flags atomic/cleanup-on-fail/keep-history/replace/" +
+	return "40% generic: histories of 1-6 real operations (install/upgrade/rollback/uninstall, random flags atomic/cleanup-on-fail/keep-history/replace/" +
 		"max-history/no-hooks, 5-resource chart family with hooks) on memory/Secret/ConfigMap storage; per operation one of: no fault (40%), " +
 		"one cluster fault (25%: rejected create/patch/delete/get of one resource, hook failure, wait failure), n-th storage write fails (15%), " +
-		"process death before the n-th mutating effect (20%); non-trivial = at least 2 operations changed the ledger; distinct = hash of (case, observation)"
+		"process death before the n-th mutating effect (20%); 30% ledger-stress: 5-10 operations, history limits, failed upgrades, explicit rollback targets; " +
+		"30% fault-then-recover: fault-free prefix, one operation with a crash point or write failure at a random position, then 2-4 recovery operations " +
+		"(a second faulted one in a third of them); non-trivial = at least 2 operations changed the ledger; distinct = hash of (case, observation)"
 }
 
 func engDecode(raw json.RawMessage) (any, error) {
@@ -89,6 +91,26 @@ func (*c01) Corpus() []any {
 			{Op: mkOp("upgrade", 4, eng.Flags{MaxHistory: 2}, "a")}, {Op: nv5}, {Op: mkOp("upgrade", 6, eng.Flags{}, "a")},
 			{Op: mkOp("rollback", 0, eng.Flags{Version: 5})}, {Op: mkOp("uninstall", 0, eng.Flags{KeepHistory: true})},
 			{Op: mkOp("install", 7, eng.Flags{Replace: true}, "a")}, {Op: mkOp("uninstall", 0, eng.Flags{})}}})
+	}
+	for _, b := range []string{"secret", "memory"} {
+		// Example C01_narrow_h1_instance (wf_history): the "failed" status write of a failing upgrade is lost,
+		// revision 2 stays pending-upgrade, the next upgrade is refused, rollback recovers
+		w2 := mkOp("upgrade", 2, eng.Flags{}, "a")
+		w2.WaitFail, w2.WFail = true, ipt(2)
+		out = append(out, eng.History{Backend: b, Steps: []eng.Step{
+			{Op: mkOp("install", 1, eng.Flags{}, "a")}, {Op: w2}, {Op: mkOp("upgrade", 3, eng.Flags{}, "a")},
+			{Op: mkOp("rollback", 0, eng.Flags{})}}})
+		// Example C01_crashed_install_instance (ci_history): crashed install; install --replace, upgrade and
+		// rollback are refused; uninstall; install
+		ci := mkOp("install", 1, eng.Flags{}, "a")
+		ci.Crash = ipt(1)
+		out = append(out, eng.History{Backend: b, Steps: []eng.Step{
+			{Op: ci}, {Op: mkOp("install", 2, eng.Flags{Replace: true}, "a")}, {Op: mkOp("upgrade", 3, eng.Flags{}, "a")},
+			{Op: mkOp("rollback", 0, eng.Flags{})}, {Op: mkOp("uninstall", 0, eng.Flags{})}, {Op: mkOp("install", 4, eng.Flags{}, "a")}}})
+		// K2'': the final "uninstalled" write of uninstall --keep-history fails and is swallowed
+		un := mkOp("uninstall", 0, eng.Flags{KeepHistory: true})
+		un.WFail = ipt(1)
+		out = append(out, eng.History{Backend: b, Steps: []eng.Step{{Op: mkOp("install", 1, eng.Flags{}, "a")}, {Op: un}}})
 	}
 	// more than nine revisions (storage keys ...v10 sort before ...v2), then a history limit: pruning must
 	// work on the revision order, not on the order the driver lists the records in
@@ -175,10 +197,104 @@ func (*c01) Exhaustive(tier string) []any {
 }
 
 func (*c01) Generate(r *rand.Rand, _ int) any {
-	if r.Intn(5) < 2 {
+	switch k := r.Intn(10); {
+	case k < 3:
 		return genLedgerStress(r)
+	case k < 6:
+		return genRecover(r)
 	}
 	return eng.GenHistory(r, eng.GenOpts{Faults: true, Hooks: 2, Flags: true})
+}
+
+// genRecover: fault-then-recover histories.  A fault-free prefix (install, 0-2 upgrades), then ONE operation
+// with a crash point or a storage-write failure at a random position, then 2-4 recovery operations without
+// storage faults (upgrade, rollback [previous or an explicit revision], uninstall [+/- keep-history],
+// install [--replace]); one third of the histories contain a second faulted operation in the recovery part.
+func genRecover(r *rand.Rand) eng.History {
+	h := eng.History{Backend: []string{"secret", "memory", "configmap"}[r.Intn(3)]}
+	variant, top := 0, 0
+	content := func(op *eng.Op) {
+		variant++
+		op.ChartID, op.ValsID = variant, r.Intn(4)
+		op.Manifest = eng.GenManifest(r, variant, false)
+		op.Hooks = eng.GenHooks(r, 1)
+	}
+	fault := func(op *eng.Op) {
+		if r.Intn(2) == 0 {
+			op.Crash = ipt(r.Intn(7))
+		} else {
+			op.WFail = ipt(r.Intn(6))
+		}
+		if r.Intn(4) == 0 {
+			op.WaitFail = true // failure path + storage fault
+		}
+	}
+	add := func(op *eng.Op) {
+		if op.Kind != "uninstall" {
+			top++
+		}
+		h.Steps = append(h.Steps, eng.Step{Op: op})
+	}
+	inst := &eng.Op{Kind: "install"}
+	content(inst)
+	prefix := r.Intn(3)
+	if prefix == 0 && r.Intn(2) == 0 {
+		fault(inst) // the very first install is the faulted operation
+		add(inst)
+	} else {
+		add(inst)
+		for i := 0; i < prefix; i++ {
+			u := &eng.Op{Kind: "upgrade"}
+			content(u)
+			if r.Intn(4) == 0 {
+				u.WaitFail = true
+			}
+			add(u)
+		}
+		fo := &eng.Op{Kind: []string{"upgrade", "upgrade", "upgrade", "rollback", "uninstall", "install"}[r.Intn(6)]}
+		switch fo.Kind {
+		case "upgrade":
+			content(fo)
+			fo.Flags.Atomic = r.Intn(3) == 0
+			if r.Intn(3) == 0 {
+				fo.Flags.MaxHistory = 1 + r.Intn(3)
+			}
+		case "install":
+			content(fo)
+			fo.Flags.Replace = true
+		case "uninstall":
+			fo.Flags.KeepHistory = r.Intn(2) == 0
+		}
+		fault(fo)
+		add(fo)
+	}
+	n := 2 + r.Intn(3)
+	second := r.Intn(3) == 0
+	for i := 0; i < n; i++ {
+		op := &eng.Op{Kind: []string{"upgrade", "upgrade", "rollback", "rollback", "uninstall", "install"}[r.Intn(6)]}
+		switch op.Kind {
+		case "upgrade":
+			content(op)
+			op.Flags.Atomic = r.Intn(4) == 0
+		case "install":
+			content(op)
+			op.Flags.Replace = r.Intn(4) > 0
+		case "rollback":
+			if r.Intn(2) == 0 && top > 0 {
+				op.Flags.Version = 1 + r.Intn(top)
+			}
+			if r.Intn(4) == 0 {
+				op.Flags.MaxHistory = 1 + r.Intn(3)
+			}
+		case "uninstall":
+			op.Flags.KeepHistory = r.Intn(2) == 0
+		}
+		if second && i == 0 {
+			fault(op)
+		}
+		add(op)
+	}
+	return h
 }
 
 // genLedgerStress: longer histories (5-10 operations) aimed at the ledger clauses: many upgrades and
@@ -280,7 +396,13 @@ func (*c01) Class(ci, _ any) string {
 			lim = "/limit"
 		}
 	}
-	return fmt.Sprintf("len%d/%s%s", len(h.Steps), cls, lim)
+	rec := ""
+	for i, st := range h.Steps {
+		if st.Op != nil && (st.Op.Crash != nil || st.Op.WFail != nil) && i+1 < len(h.Steps) {
+			rec = "/then-recover"
+		}
+	}
+	return fmt.Sprintf("len%d/%s%s%s", len(h.Steps), cls, lim, rec)
 }
 
 func (*c01) NonTrivial(_, oi any) bool {
